@@ -4,6 +4,7 @@
 // a failing input can be searched.
 #include "common.h"
 #include <cstring>
+#include <cmath>
 #include "Minkowski.h"
 
 #define OP(name) ops[name] = [](Args& A, Out& O)
@@ -69,24 +70,24 @@ int main ()
   // scalars passed in another arithmetic type than the element type (the scalar operators are templates, or convert at the
   // call): with a small integer k given as int, long, short, unsigned, float the result is that of the double k, bit for bit.
   // Output: number of differing components, per container
-  OP("o.c13.inttypes") { int k = A.integer(); std::vector<double> v; while (!A.done()) v.push_back (hexdouble (A.next())); double dk = k;
+  OP("o.c13.inttypes") { int k = A.integer(); const bool fits_short = (k >= -32768 && k <= 32767), fits_float = (k > -16777216 && k < 16777216); std::vector<double> v; while (!A.done()) v.push_back (hexdouble (A.next())); double dk = k;
     auto differ = [] (const double* x, const double* y, unsigned n) { int bad = 0; for (unsigned i=0;i<n;i++) if (memcmp (x+i, y+i, 8) != 0) bad++; return bad; };
     { Vector<3,double> a (v[0], v[1], v[2]); int bad = 0;
 #define VCASE(expr_k, expr_d) { Vector<3,double> x = a, y = a; expr_k; expr_d; bad += differ (&x[0], &y[0], 3); }
-      VCASE(x *= k, y *= dk) VCASE(x /= k, y /= dk) VCASE(x *= (long) k, y *= dk) VCASE(x /= (short) k, y /= dk) VCASE(x *= (float) k, y *= dk)
+      VCASE(x *= k, y *= dk) VCASE(x /= k, y /= dk) VCASE(x *= (long) k, y *= dk) if (fits_short) VCASE(x /= (short) k, y /= dk) if (fits_float) VCASE(x *= (float) k, y *= dk)
       VCASE(x = a * k, y = a * dk) VCASE(x = k * a, y = dk * a) VCASE(x = a / k, y = a / dk)
       if (k > 0) { VCASE(x *= (unsigned) k, y *= dk) VCASE(x /= (unsigned) k, y /= dk) }
 #undef VCASE
       O.put (bad); }
     { Matrix<2,2,double> a; a[0][0] = v[0]; a[0][1] = v[1]; a[1][0] = v[2]; a[1][1] = v[3]; int bad = 0;
 #define MCASE(expr_k, expr_d) { Matrix<2,2,double> x = a, y = a; expr_k; expr_d; bad += differ (&x[0][0], &y[0][0], 2) + differ (&x[1][0], &y[1][0], 2); }
-      MCASE(x *= k, y *= dk) MCASE(x /= k, y /= dk) MCASE(x *= (long) k, y *= dk) MCASE(x /= (float) k, y /= dk)
+      MCASE(x *= k, y *= dk) MCASE(x /= k, y /= dk) MCASE(x *= (long) k, y *= dk) if (fits_float) MCASE(x /= (float) k, y /= dk)
       if (k > 0) { MCASE(x *= (unsigned) k, y *= dk) }
 #undef MCASE
       O.put (bad); }
     { Stokes<double> a (v[0], v[1], v[2], v[3]); int bad = 0;
 #define SCASE(expr_k, expr_d) { Stokes<double> x = a, y = a; expr_k; expr_d; bad += differ (&x[0], &y[0], 4); }
-      SCASE(x *= k, y *= dk) SCASE(x /= k, y /= dk) SCASE(x *= (short) k, y *= dk)
+      SCASE(x *= k, y *= dk) SCASE(x /= k, y /= dk) if (fits_short) SCASE(x *= (short) k, y *= dk)
 #undef SCASE
       O.put (bad); }
     { int bad = 0;
@@ -94,15 +95,25 @@ int main ()
         double xx[4] = { x.s0, x.s1, x.s2, x.s3 }, yy[4] = { y.s0, y.s1, y.s2, y.s3 }; bad += differ (xx, yy, 4); }
       QCASE(Hermitian, x *= k, y *= dk) QCASE(Hermitian, x /= k, y /= dk) QCASE(Unitary, x *= k, y *= dk) QCASE(Unitary, x /= k, y /= dk)
       // (the binary forms take their result type from PromoteTraits, which has no entry for integral types: float only)
-      QCASE(Hermitian, x = a * (float) k, y = a * dk) QCASE(Unitary, x = a / (float) k, y = a / dk) QCASE(Hermitian, x = (float) k * a, y = dk * a)
+      if (fits_float) { QCASE(Hermitian, x = a * (float) k, y = a * dk) QCASE(Unitary, x = a / (float) k, y = a / dk) QCASE(Hermitian, x = (float) k * a, y = dk * a) }
 #undef QCASE
       O.put (bad); }
     { Estimate<double> a (v[0], std::fabs (v[1])); int bad = 0;
 #define ECASE(expr_k, expr_d) { Estimate<double> x = a, y = a; expr_k; expr_d; double xx[2] = { x.val, x.var }, yy[2] = { y.val, y.var }; bad += differ (xx, yy, 2); }
       ECASE(x = a * k, y = a * dk) ECASE(x = a / k, y = a / dk) ECASE(x = a + k, y = a + dk) ECASE(x = a - k, y = a - dk)
-      ECASE(x = k * a, y = dk * a) ECASE(x = k + a, y = dk + a) ECASE(x *= k, y *= dk) ECASE(x += k, y += dk) ECASE(x = a * (long) k, y = a * dk)
+      ECASE(x = k * a, y = dk * a) ECASE(x = k + a, y = dk + a) ECASE(x *= k, y *= dk) ECASE(x += k, y += dk) ECASE(x = a * (long) k, y = a * dk) ECASE(x = a * (long long) k, y = a * dk) if (k > 0) { ECASE(x = a * (unsigned) k, y = a * dk) ECASE(x = (unsigned long) k * a, y = dk * a) ECASE(x *= (unsigned) k, y *= dk) }
 #undef ECASE
       O.put (bad); } };
+
+  // weighted mean at extended precision with variances outside the range of double (10^e, |e| up to 4000): the accumulator
+  // against the closed form evaluated in long double.  Output: relative errors of value and variance, and a flag (1 = an entry
+  // with non-zero variance was taken into account)
+  OP("o.c12.ldmean") { unsigned n = A.nat(); MeanEstimate<long double> m; long double sw = 0, sx = 0;
+    for (unsigned i=0;i<n;i++) { long double x = hexdouble (A.next()); int e = A.integer(); long double var = powl (10.0L, (long double) e);
+      m += Estimate<long double> (x, var); sw += 1.0L / var; sx += x / var; }
+    Estimate<long double> r = m.get_Estimate(); long double mean = sx / sw, var = 1.0L / sw;
+    O.put (dhexs ((double) (fabsl (r.val - mean) / std::max (fabsl (mean), 1e-4900L)))); O.put (dhexs ((double) (fabsl (r.var - var) / var)));
+    O.put (dhexs (r.var > 0 ? 0.0 : 1.0)); };
 
   return run_stream (ops);
 }
